@@ -4566,6 +4566,8 @@ class DecConvex(Convex):
                 values_out = self.affine_out()
             else:
                 values_out = self.affine_out
+            if isinstance(values_out, pd.Series) and not isinstance(values_in, pd.Series):
+                values_in = pd.Series([values_in] * len(values_out), index=values_out.index)
             if not isinstance(values_in, pd.Series):
                 values_in = pd.Series([values_in])
             if not isinstance(values_out, pd.Series):
